@@ -93,6 +93,22 @@ func c20Entries(idA, idB, eid string) []c20Entry {
 		{Name: "AddVertex", Positions: []string{"id", "label", "property-name", "property-value"}, Benign: []string{idA, "users", "k", "v"}, Call: func(db gdbi.GraphDB, a []string) {
 			graph(db).AddVertex([]*gdbi.Vertex{{ID: a[0], Label: a[1], Data: map[string]any{a[2]: a[3]}, Loaded: true}})
 		}},
+		// batched calls (two elements of one kind): per-batch statements (locks, IN lists, multi-row inserts) only exist here
+		{Name: "AddVertex-batch", Positions: []string{"id0", "label0", "id1", "label1"}, Benign: []string{idA, "users", idB, "users"}, Call: func(db gdbi.GraphDB, a []string) {
+			graph(db).AddVertex([]*gdbi.Vertex{{ID: a[0], Label: a[1], Data: map[string]any{"k": "v"}, Loaded: true}, {ID: a[2], Label: a[3], Data: map[string]any{"k": "w"}, Loaded: true}})
+		}},
+		{Name: "AddEdge-batch", Positions: []string{"id0", "label0", "from0", "to0", "id1", "label1", "from1", "to1"}, Benign: []string{"e1", "purchased", idA, idB, "e2", "purchased", idB, idA}, Call: func(db gdbi.GraphDB, a []string) {
+			graph(db).AddEdge([]*gdbi.Edge{{ID: a[0], Label: a[1], From: a[2], To: a[3], Loaded: true}, {ID: a[4], Label: a[5], From: a[6], To: a[7], Loaded: true}})
+		}},
+		{Name: "BulkAdd-batch", Positions: []string{"vertex-id0", "vertex-id1", "edge-id0", "edge-id1"}, Benign: []string{idA, idB, "e1", "e2"}, Call: func(db gdbi.GraphDB, a []string) {
+			c := make(chan *gdbi.GraphElement, 4)
+			c <- &gdbi.GraphElement{Graph: "g", Vertex: &gdbi.Vertex{ID: a[0], Label: "users", Loaded: true}}
+			c <- &gdbi.GraphElement{Graph: "g", Vertex: &gdbi.Vertex{ID: a[1], Label: "users", Loaded: true}}
+			c <- &gdbi.GraphElement{Graph: "g", Edge: &gdbi.Edge{ID: a[2], Label: "purchased", From: idA, To: idB, Loaded: true}}
+			c <- &gdbi.GraphElement{Graph: "g", Edge: &gdbi.Edge{ID: a[3], Label: "purchased", From: idB, To: idA, Loaded: true}}
+			close(c)
+			graph(db).BulkAdd(c)
+		}},
 		{Name: "AddEdge", Positions: []string{"id", "label", "from", "to"}, Benign: []string{"e1", "purchased", idA, idB}, Call: func(db gdbi.GraphDB, a []string) {
 			graph(db).AddEdge([]*gdbi.Edge{{ID: a[0], Label: a[1], From: a[2], To: a[3], Loaded: true}})
 		}},
